@@ -4,6 +4,7 @@ pub mod anim;
 pub mod common;
 pub mod extreme;
 pub mod laws;
+pub mod macroless;
 pub mod obj;
 pub mod tl;
 pub mod ts;
